@@ -140,7 +140,9 @@ def gate2_id(b, k):
 
 def build_gated(macro, depths, flavour, handler, mode):
     """async profile programs whose every (branch, step) waits at a harness-controlled gate before its event.
-    mode: 'one' | 'two0' (branch 0 waits at two gates per step) | 'skip0' (branch 0 has no pending point)"""
+    mode: 'one' | 'two0' (branch 0 waits at two gates per step) | 'skip0' (branch 0 has no pending point) |
+    'cap0' (step 0 carries block operands: branch 0's initial value and a captured callback in every branch) |
+    'arrow' (every later step is `~-> gvia::<B, K, _>`: a function of the previous FUTURE that itself pends)"""
     assert macro in dsl.ASYNC
     is_try = macro in dsl.TRY
     n = len(depths)
@@ -159,16 +161,27 @@ def build_gated(macro, depths, flavour, handler, mode):
             return "gated(%d, \"%s\", %d, %s)" % (gate_id(b, k), site, slot(b, k), val)
 
         items = []
+        if mode == "cap0":
+            # a block operand in step 0 of every branch: evaluated when the step starts, i.e. not before the first poll
+            if is_try:
+                items.append(Op("|>", [B('ev0("c.0.%d.1"); |r: Result<i32, i32>| r' % b)]))
+            else:
+                items.append(Op("|>", [B('ev0("c.0.%d.1"); |v: i32| v' % b)]))
         for k in range(1, d):
             if is_try:
                 items.append(Op("=>", [O("|v: i32| %s" % fut(k, "v + 1"))], deferred=True))
+            elif mode == "arrow":
+                items.append(Op("->", [O("gvia::<%d, %d, _>" % (b, k))], deferred=True))
             elif b % 2 == 0:
                 items.append(Op("..", [O("then(|v: i32| %s)" % fut(k, "v + 1"))], deferred=True))
             else:
                 items.append(Op("|>", [O("|v: i32| %s" % fut(k, "v + 1"))], deferred=True))
                 items.append(Op("^^>", []))
         # the initial operand is evaluated (logged) when the branch starts, i.e. not before the first poll
-        branches.append(Branch(O("lg(\"%d.0.o\", %s)" % (b, fut(0, "100 * %d + int(%d)" % (b, OFF)))), items))
+        if mode == "cap0" and b == 0:
+            branches.append(Branch(B("ev0(\"c.0.0.0\"); %s" % fut(0, "100 * %d + int(%d)" % (b, OFF))), items))
+        else:
+            branches.append(Branch(O("lg(\"%d.0.o\", %s)" % (b, fut(0, "100 * %d + int(%d)" % (b, OFF)))), items))
     h = None
     if handler:
         args = ", ".join("a%d: i32" % i for i in range(n))
